@@ -280,19 +280,26 @@ func (bucket *Bucket) getOrCreateCollection(name sgbucket.DataStoreNameImpl, orC
 	bucket.mutex.Lock()
 	defer bucket.mutex.Unlock()
 
-	if collection, ok := bucket.collections[name]; ok {
-		return collection, nil
-	}
-
+	// The cached object may predate a drop (and re-creation) of the collection through another handle:
+	// it is only good as long as its row id is still the collection's.
+	cached, isCached := bucket.collections[name]
 	id, err := bucket._getCollectionID(name.Scope, name.Collection)
 	if err == nil {
+		if isCached && cached.id == id {
+			return cached, nil
+		}
 		return bucket._initCollection(name, id), nil
 	} else if err == sql.ErrNoRows {
+		if isCached {
+			delete(bucket.collections, name)
+		}
 		if orCreate {
 			return bucket._createCollection(name)
 		} else {
 			return nil, sgbucket.MissingError{Key: name.String()}
 		}
+	} else if isCached {
+		return cached, nil // (e.g. this handle is closed: the object's own calls report that)
 	} else {
 		return nil, err
 	}
